@@ -2,9 +2,11 @@ package c04
 
 import (
 	"bytes"
+	"encoding/json"
 	"errors"
 	"fmt"
 	"os"
+	"path/filepath"
 	"strings"
 	"time"
 
@@ -69,9 +71,31 @@ func stuckSession(gap time.Duration) (bool, string) {
 	return false, ""
 }
 
+// currentCase is the case being executed (one at a time per process); abandoned cases are saved for inspection.
+var currentCase *Case
+var abandonedSaved int
+
 func abandon(where string) *pbt.Violation {
 	pbt.Count("c04-abandoned/"+where, 1)
+	// keep the first few abandoned cases in replay form beside the violation replays (evidence/replay, not read by
+	// the driver): replayed on an idle machine they either pass or show what is slow
+	if dir := os.Getenv("VERIF_REPLAY_DIR"); dir != "" && currentCase != nil && abandonedSaved < 5 {
+		if cb, err := json.Marshal(currentCase); err == nil {
+			rb, _ := json.MarshalIndent(pbt.ReplayFile{Property: "C04", Sub: "hostile-rtmp-peer", Sig: "abandoned/" + where, Case: cb}, "", " ")
+			name := fmt.Sprintf("C04-abandoned-s%s-%s-%d.json", envOr("VERIF_SEED", "1"), envOr("VERIF_SHARD", "0"), abandonedSaved)
+			if os.WriteFile(filepath.Join(dir, name), rb, 0o644) == nil {
+				abandonedSaved++
+			}
+		}
+	}
 	return nil
+}
+
+func envOr(k, def string) string {
+	if v := os.Getenv(k); v != "" {
+		return v
+	}
+	return def
 }
 
 func head(s string, n int) string {
@@ -230,6 +254,7 @@ func serverConfig() inproc.Config {
 }
 
 func run(c Case) *pbt.Violation {
+	currentCase = &c
 	s := inproc.New(serverConfig())
 	defer s.Close()
 	w := renderWire(c)
